@@ -34,12 +34,15 @@ def instances(tier, arr_ob="O2"):
     from vk.props import C04
     out += [dataclasses.replace(i, ob="O3") for i in C04.instances(tier) if i.name.startswith(("merge_", "kalign_run_orch"))]
     # the k-means driver's keep-the-best loop (>= 100 sequences) with the numeric parts replaced by arbitrary scores
-    for n in ((100,) if tier == "quick" else (100, 101, 160)):
-        out.append(Inst(ob="O3", name="kmeans_best_n%d" % n, harness="c16_kmeans.c", defs={"VK_N": n, "NOHAVE_AVX2": None}, srcs=[], models=["models/vin.c", "models/msg.c", "models/stopwatch_stub.c"],
+    for n, rounds in (((100, 0), (100, 2)) if tier == "quick" else ((100, 0), (101, 0), (160, 0), (100, 2), (100, 3), (160, 2))):
+        out.append(Inst(ob="O3", name="kmeans_best_n%d" % n + ("_r%d" % rounds if rounds else ""), harness="c16_kmeans.c",
+                        defs=dict({"VK_N": n, "NOHAVE_AVX2": None}, **({"VK_ROUNDS": rounds} if rounds else {})), srcs=[], models=["models/vin.c", "models/msg.c", "models/stopwatch_stub.c"],
                         gi_args=["--replace-calls", "split2:vk_split2", "--replace-calls", "d_estimation:vk_d_estimation", "--replace-calls", "upgma:vk_upgma", "--replace-calls", "free_2d_array_float:vk_free_2d"],
+                        unwind_pat=([("bisecting_kmeans", r"i < tries;\s*i \+= 4", rounds + 2)] if rounds else []),
                         flags=["--memory-leak-check"], leak_check=True, replay="solver", unwind=max(n + 2, 45), nb=1, nf=40, timeout=900, mem_gb=8, solver="cadical",
                         funcs=["bisecting_kmeans", "alloc_kmeans_result", "free_kmeans_results", "alloc_node"],
-                        bound="%d samples, up to 40 restarts with arbitrary finite scores; split / distance / UPGMA replaced by stand-ins" % n,
+                        bound=("%d samples, up to 40 restarts with arbitrary finite scores; split / distance / UPGMA replaced by stand-ins" % n) +
+                        ("; only runs whose keep-the-best loop ends within %d rounds of four restarts (later rounds cut by assume)" % rounds if rounds else ""),
                         desc="k-means driver keeps the best split and releases every other result", cost=60))
     # O1: --nondet-static twins of unit harnesses (a cache / static scratch buffer added to these units would be visible)
     from vk.props import C09, C11, C10
